@@ -1,1 +1,459 @@
+import LenaModel.Model.C18
 import LenaModel.Lemmas.C18
+/-! # C18 — property theorems: Cache replays exactly the stored flow and never serves a truncated one
+
+All theorems are about the machine of `Model/C18.lean` (`build`, `drive`, `close`, `runOp`, `dropOp`, `exec`),
+for every file system, every source, every pipeline whose caches use distinct files (`Distinct`), every way
+of putting it together (`Mode`: inside a `Source`, inside a `Sequence`, hoisted by `Cache.alter_sequence`, via
+`lena.core.alter_sequence`, a bare element), every demand `k` of the consumer and every history of operations
+— no bound on lengths.  `pipeFlow`/`elsFlow` (Model, "Reference semantics") say what a pipeline means.
+
+Sentences of the property:
+1. "The first complete run through a Cache yields the flow unaltered and stores it" — `run_yields_flow`,
+   `first_run_transparent`, `first_run_stores`, `first_run_does_not_touch_cache_file`;
+2. "every later run yields exactly the stored values in the original order without pulling a single value
+   from, or running any element of, the upstream — whether the Cache sits inside a Sequence or is hoisted into
+   a Source by alter_sequence" — `replay_exact_no_pull`, `first_complete_run_then_replay`, `hoisted_same_chain`;
+3. "recompute=True or drop_cache() restore the first-run behaviour" — `recompute_restores_first_run`,
+   `drop_restores_first_run`;
+4. "If the first run stops at any point before the flow is exhausted … no later run presents the stored prefix
+   as if it were the complete flow" — `interrupted_run_keeps_cache_files`, `cache_complete`,
+   `later_run_serves_complete_flow`. -/
+
+namespace Lena.C18
+
+/-! ## Sentence 2a: hoisting -/
+
+/-- **hoisting changes nothing.** However the pipeline is put together — `Source(src, *els)()`,
+`Sequence(*els).run(src())`, the result of `Cache.alter_sequence`, the result of `lena.core.alter_sequence`, a bare
+`Cache` — the generators that run are the same, hence so is everything observable. -/
+theorem hoisted_same_chain (mode : Mode) (fs : FS) (s : SrcSpec) (els : List ElSpec) (hm : ModeOk mode els) :
+    build mode fs s els = build .sequence fs s els :=
+  build_eq' mode fs s els hm
+
+example : ModeOk .hoist [.map 1 none, .cache 0 false] := Or.inl (by decide)
+example : ModeOk .bare [.cache 0 true] := Or.inr ⟨0, true, rfl⟩
+
+/-- a healthy chain is built from every pipeline with distinct caches -/
+theorem chainOk_build (mode : Mode) (fs : FS) (s : SrcSpec) (els : List ElSpec) (hm : ModeOk mode els)
+    (hd : Distinct els) : ChainOk fs (build mode fs s els) := by
+  rw [build_eq' mode fs s els hm]
+  exact chainOk_buildEls fs els 0 _ hd (by simp [dumpIds]) ⟨trivial, by simp [freshSrc, BotOk]⟩
+
+theorem rem_build (mode : Mode) (fs : FS) (s : SrcSpec) (els : List ElSpec) (hm : ModeOk mode els) :
+    rem fs (build mode fs s els) = pipeFlow fs s els := by
+  rw [build_eq' mode fs s els hm, rem_buildEls, rem_freshSrc]; rfl
+
+/-! ## Sentence 1: a run yields the flow unaltered -/
+
+/-- how a consumer that makes at most `k` pulls sees the end of a flow -/
+def endOf (f : Flow) (k : Nat) : End :=
+  if k ≤ f.vals.length then .stopped
+  else match f.exc with
+    | none => .exhausted
+    | some e => .raised e
+
+/-- **a run yields the flow unaltered** (first run or replay, any crash point): a consumer that makes at most
+`k` pulls receives exactly the first `k` values of the pipeline's flow — the caches that are filled on the way
+alter nothing — and sees the end of the flow (normal or exception) iff it asks for more. -/
+theorem run_yields_flow (mode : Mode) (fs : FS) (s : SrcSpec) (els : List ElSpec) (k : Nat)
+    (hm : ModeOk mode els) (hd : Distinct els) :
+    (runPipe mode fs s els k).outs.map (·.1) = (pipeFlow fs s els).vals.take k ∧
+    (runPipe mode fs s els k).end_ = endOf (pipeFlow fs s els) k := by
+  have sp := drive_spec k fs _ (chainOk_build mode fs s els hm hd)
+  unfold DriveSpec at sp
+  rw [rem_build mode fs s els hm] at sp
+  obtain ⟨h1, _, _, _, h5, h6, h7⟩ := sp
+  refine ⟨h1, ?_⟩
+  unfold endOf
+  by_cases hk : k ≤ (pipeFlow fs s els).vals.length
+  · simp only [hk, if_true]; exact (h5 hk).1
+  · simp only [hk, if_false]
+    cases he : (pipeFlow fs s els).exc with
+    | none => exact (h6 (by omega) he).1
+    | some e => exact (h7 e (by omega) he).1
+
+example : ((runPipe .source FS.empty ⟨[1, 2, 3], none⟩ [.map 1 none, .cache 0 false, .map 2 none] 2).outs.map (·.1),
+    (runPipe .source FS.empty ⟨[1, 2, 3], none⟩ [.map 1 none, .cache 0 false, .map 2 none] 2).end_)
+    = ([112, 212], .stopped) := by decide
+
+/-- the run ends normally exactly when the flow does and the consumer asks for more than it holds -/
+theorem run_exhausted_iff (mode : Mode) (fs : FS) (s : SrcSpec) (els : List ElSpec) (k : Nat)
+    (hm : ModeOk mode els) (hd : Distinct els) :
+    (runPipe mode fs s els k).end_ = .exhausted ↔
+      (pipeFlow fs s els).vals.length < k ∧ (pipeFlow fs s els).exc = none := by
+  rw [(run_yields_flow mode fs s els k hm hd).2]
+  unfold endOf
+  by_cases hk : k ≤ (pipeFlow fs s els).vals.length
+  · simp [hk]; omega
+  · cases he : (pipeFlow fs s els).exc <;> simp [hk]; omega
+
+/-- the pipeline without its caches -/
+def eraseCaches : List ElSpec → List ElSpec
+  | [] => []
+  | .map a r :: els => .map a r :: eraseCaches els
+  | .cache _ _ :: els => eraseCaches els
+
+theorem elsFlow_eraseCaches (fs : FS) : ∀ (els : List ElSpec) (f : Flow), NoFilled fs els →
+    elsFlow fs els f = elsFlow fs (eraseCaches els) f
+  | [], _, _ => rfl
+  | .map a r :: els, f, nf => by
+    simp only [elsFlow, eraseCaches]
+    exact elsFlow_eraseCaches fs els _ (fun c rc h => nf c rc (by simp [h]))
+  | .cache c rc :: els, f, nf => by
+    have hx : cacheExists fs c rc = false := nf c rc (by simp)
+    simp only [elsFlow, eraseCaches, hx, Bool.false_eq_true, if_false]
+    exact elsFlow_eraseCaches fs els _ (fun c' rc' h => nf c' rc' (by simp [h]))
+
+/-- **a first run is transparent**: when no cache of the pipeline is replayed (no files, or `recompute`), the
+consumer receives what the pipeline *without its Cache elements* produces — values, order, and end. -/
+theorem first_run_transparent (mode : Mode) (fs : FS) (s : SrcSpec) (els : List ElSpec) (k : Nat)
+    (hm : ModeOk mode els) (hd : Distinct els) (hnf : NoFilled fs els) :
+    (runPipe mode fs s els k).outs.map (·.1) = (pipeFlow fs s (eraseCaches els)).vals.take k ∧
+    (runPipe mode fs s els k).end_ = endOf (pipeFlow fs s (eraseCaches els)) k := by
+  have h := run_yields_flow mode fs s els k hm hd
+  have e : pipeFlow fs s els = pipeFlow fs s (eraseCaches els) := elsFlow_eraseCaches fs els _ hnf
+  rw [e] at h
+  exact h
+
+example : NoFilled FS.empty [.map 1 none, .cache 0 false, .cache 1 true] := fun c rc _ => by
+  cases rc <;> simp [cacheExists, FS.empty]
+
+/-- **while a run is yielding, no cache file is touched**: right after each value the consumer receives,
+every cache file (`final`) is what it was before the run (on a first run: absent) -/
+theorem first_run_does_not_touch_cache_file (mode : Mode) (fs : FS) (s : SrcSpec) (els : List ElSpec) (k : Nat)
+    (hm : ModeOk mode els) (hd : Distinct els) :
+    ∀ o, o ∈ (runPipe mode fs s els k).outs → ∀ c, (o.2 c).final = (fs c).final :=
+  (drive_spec k fs _ (chainOk_build mode fs s els hm hd)).2.1
+
+/-- the shape of the chain of a pipeline `pre ++ cache c :: post` whose cache `c` is filled by the run -/
+theorem build_split (mode : Mode) (fs : FS) (s : SrcSpec) (pre post : List ElSpec) (c : Nat) (rc : Bool)
+    (hm : ModeOk mode (pre ++ .cache c rc :: post)) (hx : cacheExists fs c rc = false) :
+    build mode fs s (pre ++ .cache c rc :: post) =
+      buildEls fs (pre.length + 1) post
+        ⟨.dump c .fresh :: (buildEls fs 0 pre ⟨[], freshSrc s⟩).uppers, (buildEls fs 0 pre ⟨[], freshSrc s⟩).bottom⟩ := by
+  rw [build_eq' mode fs s _ hm, buildEls_append, buildEls]
+  simp [hx]
+
+/-- **a complete first run stores the flow.**  Let cache `c` sit anywhere in a pipeline (`pre` before it,
+`post` after it), not be replayed (no file, or `recompute`), and no cache after it be replayed.  If the run
+reaches its normal end, then the cache file holds exactly the flow that entered the cache — which ended
+normally —, the temporary file is gone, and the consumer received that flow passed through `post`. -/
+theorem first_run_stores (mode : Mode) (fs : FS) (s : SrcSpec) (pre post : List ElSpec) (c : Nat) (rc : Bool)
+    (k : Nat) (hm : ModeOk mode (pre ++ .cache c rc :: post)) (hd : Distinct (pre ++ .cache c rc :: post))
+    (hx : cacheExists fs c rc = false) (hpost : NoFilled fs post)
+    (hend : (runPipe mode fs s (pre ++ .cache c rc :: post) k).end_ = .exhausted) :
+    (runPipe mode fs s (pre ++ .cache c rc :: post) k).fs c = ⟨some (pipeFlow fs s pre).vals, none⟩ ∧
+    (pipeFlow fs s pre).exc = none ∧
+    (runPipe mode fs s (pre ++ .cache c rc :: post) k).outs.map (·.1) = (elsFlow fs post (pipeFlow fs s pre)).vals := by
+  have hflow : pipeFlow fs s (pre ++ .cache c rc :: post) = elsFlow fs post (pipeFlow fs s pre) := by
+    simp [pipeFlow, elsFlow_append, elsFlow, hx]
+  obtain ⟨hlen, hexc⟩ := (run_exhausted_iff mode fs s _ k hm hd).mp hend
+  have hcn : c ∉ cacheIds post := by
+    have := hd
+    simp only [Distinct, cacheIds_append, cacheIds, List.nodup_append, List.nodup_cons] at this
+    exact this.2.1.1
+  have sp := drive_spec k fs _ (chainOk_build mode fs s _ hm hd)
+  unfold DriveSpec at sp
+  rw [rem_build mode fs s _ hm] at sp
+  obtain ⟨h1, _, _, _, _, h6, _⟩ := sp
+  obtain ⟨_, hcommit⟩ := h6 hlen hexc
+  rw [build_split mode fs s pre post c rc hm hx] at hcommit
+  obtain ⟨b1, b2, b3⟩ := buildEls_noFilled fs c (pipeFlow fs s pre).vals post (pre.length + 1)
+    ⟨.dump c .fresh :: (buildEls fs 0 pre ⟨[], freshSrc s⟩).uppers, (buildEls fs 0 pre ⟨[], freshSrc s⟩).bottom⟩ hpost hcn
+  have hT : (remUs (buildEls fs 0 pre ⟨[], freshSrc s⟩).uppers (remB fs (buildEls fs 0 pre ⟨[], freshSrc s⟩).bottom)).vals
+      = (pipeFlow fs s pre).vals := by
+    have := rem_buildEls fs pre 0 ⟨[], freshSrc s⟩
+    rw [rem_freshSrc] at this
+    simpa [rem, pipeFlow] using congrArg Flow.vals this
+  refine ⟨?_, ?_, ?_⟩
+  · unfold runPipe
+    rw [build_split mode fs s pre post c rc hm hx]
+    apply hcommit c _ (b2 (by simp [dumpIds]))
+    rw [b1]
+    apply b3
+    unfold Track
+    simpa using hT
+  · rw [hflow] at hexc
+    exact elsFlow_exc_none fs post _ hpost hexc
+  · unfold runPipe
+    rw [h1, hflow, List.take_of_length_le]
+    rw [hflow] at hlen
+    omega
+
+example : ((runPipe .source FS.empty ⟨[1, 2], none⟩ [.map 1 none, .cache 0 false, .map 2 none] 3).fs 0,
+    (runPipe .source FS.empty ⟨[1, 2], none⟩ [.map 1 none, .cache 0 false, .map 2 none] 3).end_)
+    = (⟨some [11, 21], none⟩, .exhausted) := by decide
+
+/-! ## Sentence 2b: a later run replays exactly the stored values and touches nothing upstream -/
+
+/-- an event of an element placed after position `p` of the pipeline: in particular not a resumption of the
+source, and not a step of an element at or before `p` -/
+def EvAfter (p : Nat) : Ev → Prop
+  | .step j _ => p < j
+  | .stepRaise j _ => p < j
+  | _ => False
+
+/-- **replay.**  Let cache `c` (not `recompute`) sit anywhere in a pipeline and its file hold `xs`.  Then, for
+every source, every `pre`, every demand `k` and every way of calling (inside a `Sequence`/`Source`, or hoisted):
+* the consumer receives the first `k` values of `xs` passed through `post` — exactly `xs.take k` when the cache
+  is the last element — whatever the source and the elements before the cache are;
+* no event of the run is a resumption of the source or a step of an element before the cache: nothing is
+  pulled from, and no element is run in, the upstream;
+* the cache file is left as it is. -/
+theorem replay_exact_no_pull (mode : Mode) (fs : FS) (s : SrcSpec) (pre post : List ElSpec) (c : Nat) (k : Nat)
+    (xs : List Val) (hm : ModeOk mode (pre ++ .cache c false :: post)) (hd : Distinct (pre ++ .cache c false :: post))
+    (hfile : (fs c).final = some xs) :
+    (runPipe mode fs s (pre ++ .cache c false :: post) k).outs.map (·.1) = (elsFlow fs post ⟨xs, none⟩).vals.take k ∧
+    (∀ ev, ev ∈ (runPipe mode fs s (pre ++ .cache c false :: post) k).evs → EvAfter pre.length ev) ∧
+    (runPipe mode fs s (pre ++ .cache c false :: post) k).fs c = fs c := by
+  have hx : cacheExists fs c false = true := by simp [cacheExists, hfile]
+  have hflow : pipeFlow fs s (pre ++ .cache c false :: post) = elsFlow fs post ⟨xs, none⟩ := by
+    simp [pipeFlow, elsFlow_append, elsFlow, hx, storedFlow, hfile]
+  have hbuild : build mode fs s (pre ++ .cache c false :: post) =
+      buildEls fs (pre.length + 1) post ⟨[], .load c .fresh []⟩ := by
+    rw [build_eq' mode fs s _ hm, buildEls_append, buildEls]
+    simp [hx]
+  refine ⟨?_, ?_, ?_⟩
+  · rw [(run_yields_flow mode fs s _ k hm hd).1, hflow]
+  · intro ev hev
+    unfold runPipe at hev
+    rw [hbuild] at hev
+    obtain ⟨m1, m2⟩ := buildEls_mapIds fs post (pre.length + 1) ⟨[], .load c .fresh []⟩
+    have := drive_load_evs k fs _ (m2 rfl) ev hev
+    have hj : ∀ j, j ∈ mapIds (buildEls fs (pre.length + 1) post ⟨[], .load c .fresh []⟩).uppers → pre.length < j := by
+      intro j hj
+      rcases m1 j hj with h | h
+      · simp [mapIds] at h
+      · omega
+    cases ev with
+    | step j i => exact hj j this
+    | stepRaise j i => exact hj j this
+    | srcYield i => exact this
+    | srcRaise i => exact this
+    | srcEnd => exact this
+  · have sp := drive_spec k fs _ (chainOk_build mode fs s _ hm hd)
+    apply sp.2.2.1
+    rw [hbuild]
+    intro hmem
+    rcases dumpIds_buildEls fs c post _ _ hmem with ⟨h, _⟩ | ⟨p1, rc, p2, e, _, _⟩
+    · simp [dumpIds] at h
+    · have := hd
+      simp only [Distinct, cacheIds_append, cacheIds, List.nodup_append, List.nodup_cons, e] at this
+      exact this.2.1.1 (by simp)
+
+/-- when the cache is the last element, the replay is the stored list itself -/
+theorem replay_last (mode : Mode) (fs : FS) (s : SrcSpec) (pre : List ElSpec) (c : Nat) (k : Nat) (xs : List Val)
+    (hm : ModeOk mode (pre ++ [.cache c false])) (hd : Distinct (pre ++ [.cache c false]))
+    (hfile : (fs c).final = some xs) :
+    (runPipe mode fs s (pre ++ [.cache c false]) k).outs.map (·.1) = xs.take k := by
+  simpa [elsFlow] using (replay_exact_no_pull mode fs s pre [] c k xs hm hd hfile).1
+
+example : (runPipe .hoist (FS.empty.set 0 ⟨some [5, 6, 7], none⟩) ⟨[1, 2], some 0⟩ [.map 1 (some 0), .cache 0 false, .map 2 none] 9).outs.map (·.1)
+    = [52, 62, 72] := by decide
+example : (runPipe .hoist (FS.empty.set 0 ⟨some [5, 6, 7], none⟩) ⟨[1, 2], some 0⟩ [.map 1 (some 0), .cache 0 false, .map 2 none] 9).evs
+    = [.step 2 0, .step 2 1, .step 2 2] := by decide
+
+/-- **first complete run, then replay** (sentences 1 and 2 together).  After a run that filled cache `c` and
+reached its normal end, *every* later run through a (non-`recompute`) Cache on the same file — any source, any
+elements before it, any way of calling, any demand — yields exactly the flow that entered the cache in the
+first run (passed through the elements after the cache), in the original order, and no event of it is a
+resumption of the source or a step of an element before the cache. -/
+theorem first_complete_run_then_replay (mode : Mode) (fs : FS) (s : SrcSpec) (pre post : List ElSpec) (c : Nat)
+    (rc : Bool) (k : Nat) (hm : ModeOk mode (pre ++ .cache c rc :: post))
+    (hd : Distinct (pre ++ .cache c rc :: post)) (hx : cacheExists fs c rc = false) (hpost : NoFilled fs post)
+    (hend : (runPipe mode fs s (pre ++ .cache c rc :: post) k).end_ = .exhausted)
+    (mode' : Mode) (s' : SrcSpec) (pre' post' : List ElSpec) (k' : Nat)
+    (hm' : ModeOk mode' (pre' ++ .cache c false :: post')) (hd' : Distinct (pre' ++ .cache c false :: post')) :
+    (runPipe mode' (runPipe mode fs s (pre ++ .cache c rc :: post) k).fs s' (pre' ++ .cache c false :: post') k').outs.map (·.1)
+      = (elsFlow (runPipe mode fs s (pre ++ .cache c rc :: post) k).fs post' ⟨(pipeFlow fs s pre).vals, none⟩).vals.take k' ∧
+    (∀ ev, ev ∈ (runPipe mode' (runPipe mode fs s (pre ++ .cache c rc :: post) k).fs s' (pre' ++ .cache c false :: post') k').evs →
+      EvAfter pre'.length ev) := by
+  have hfile : ((runPipe mode fs s (pre ++ .cache c rc :: post) k).fs c).final = some (pipeFlow fs s pre).vals := by
+    rw [(first_run_stores mode fs s pre post c rc k hm hd hx hpost hend).1]
+  obtain ⟨h1, h2, _⟩ := replay_exact_no_pull mode' _ s' pre' post' c k' _ hm' hd' hfile
+  exact ⟨h1, h2⟩
+
+/-! ## Sentence 3: recompute and drop_cache restore the first-run behaviour -/
+
+/-- **recompute.**  With `recompute=True` the cache is filled as on a first run, whatever its file holds: a
+complete run replaces the file by the flow that entered the cache.  (Until then the old file stays:
+`first_run_does_not_touch_cache_file`.) -/
+theorem recompute_restores_first_run (mode : Mode) (fs : FS) (s : SrcSpec) (pre post : List ElSpec) (c : Nat)
+    (k : Nat) (hm : ModeOk mode (pre ++ .cache c true :: post)) (hd : Distinct (pre ++ .cache c true :: post))
+    (hpost : NoFilled fs post)
+    (hend : (runPipe mode fs s (pre ++ .cache c true :: post) k).end_ = .exhausted) :
+    (runPipe mode fs s (pre ++ .cache c true :: post) k).fs c = ⟨some (pipeFlow fs s pre).vals, none⟩ ∧
+    (pipeFlow fs s pre).exc = none ∧
+    (runPipe mode fs s (pre ++ .cache c true :: post) k).outs.map (·.1) = (elsFlow fs post (pipeFlow fs s pre)).vals :=
+  first_run_stores mode fs s pre post c true k hm hd rfl hpost hend
+
+example : (runPipe .sequence (FS.empty.set 0 ⟨some [5, 6, 7], none⟩) ⟨[1, 2], none⟩ [.cache 0 true] 3).fs 0
+    = ⟨some [1, 2], none⟩ := by decide
+
+/-- `drop_cache()` removes the cache file and nothing else; it fails (with the `FileNotFoundError` of
+`os.remove`) exactly when there is no file, and then changes nothing -/
+theorem drop_spec (w : World) (c : Nat) (rc : Bool) :
+    ((dropOp w c rc).1.fs c).final = none ∧
+    (∀ d, d ≠ c → (dropOp w c rc).1.fs d = w.fs d) ∧
+    ((dropOp w c rc).1.fs c).tmp = (w.fs c).tmp ∧
+    ((dropOp w c rc).2 = none ↔ (w.fs c).final.isSome) := by
+  unfold dropOp FS.removeFinal
+  cases h : (w.fs c).final with
+  | none => simp [h]
+  | some xs => simp; intro d hd; simp [hd]
+
+/-- **drop_cache.**  After `drop_cache()` the cache is filled as on a first run: a complete run stores the flow
+that entered the cache. -/
+theorem drop_restores_first_run (mode : Mode) (w : World) (s : SrcSpec) (pre post : List ElSpec) (c : Nat)
+    (rc rc' : Bool) (k : Nat) (hm : ModeOk mode (pre ++ .cache c rc :: post))
+    (hd : Distinct (pre ++ .cache c rc :: post)) (hpost : NoFilled (dropOp w c rc').1.fs post)
+    (hend : (runPipe mode (dropOp w c rc').1.fs s (pre ++ .cache c rc :: post) k).end_ = .exhausted) :
+    (runPipe mode (dropOp w c rc').1.fs s (pre ++ .cache c rc :: post) k).fs c
+      = ⟨some (pipeFlow (dropOp w c rc').1.fs s pre).vals, none⟩ :=
+  (first_run_stores mode _ s pre post c rc k hm hd
+    (by simp [cacheExists, (drop_spec w c rc').1]) hpost hend).1
+
+/-! ## Sentence 4: interrupted runs, histories -/
+
+theorem runOp_snd (w : World) (r : RunSpec) : (runOp w r).2 = runPipe r.mode w.fs r.src r.els r.demand := by
+  unfold runOp runPipe
+  simp only
+  split
+  · rfl
+  · split <;> rfl
+
+/-- whatever happens to the generators after a run (nothing, leak, close), the cache files are those the
+consumption left -/
+theorem runOp_final (w : World) (r : RunSpec) (c : Nat) :
+    ((runOp w r).1.fs c).final = ((runPipe r.mode w.fs r.src r.els r.demand).fs c).final := by
+  unfold runOp runPipe
+  simp only
+  split
+  · rfl
+  · split
+    · rfl
+    · simp only [close_final]
+
+/-- a run operation with distinct caches and a defined way of calling -/
+def RunSpec.WF (r : RunSpec) : Prop := Distinct r.els ∧ ModeOk r.mode r.els
+
+/-- **an interrupted run stores nothing**: if a run does not reach its normal end — the consumer stops after
+`k` values, or the source or any element raises — then, whether its generators are finalised at once
+(`close`) or kept alive (`leak`), every cache file is exactly what it was before the run. -/
+theorem interrupted_run_keeps_cache_files (w : World) (r : RunSpec) (wf : r.WF)
+    (hend : (runOp w r).2.end_ ≠ .exhausted) : ∀ c, ((runOp w r).1.fs c).final = (w.fs c).final := by
+  intro c
+  rw [runOp_snd] at hend
+  rw [runOp_final]
+  have sp := drive_spec r.demand w.fs _ (chainOk_build r.mode w.fs r.src r.els wf.2 wf.1)
+  unfold DriveSpec at sp
+  rw [rem_build r.mode w.fs r.src r.els wf.2] at sp
+  obtain ⟨_, _, _, _, h5, h6, h7⟩ := sp
+  unfold runPipe at hend ⊢
+  by_cases hk : r.demand ≤ (pipeFlow w.fs r.src r.els).vals.length
+  · exact (h5 hk).2.2.1 c
+  · cases he : (pipeFlow w.fs r.src r.els).exc with
+    | none => exact absurd (h6 (by omega) he).1 hend
+    | some e => exact (h7 e (by omega) he).2 c
+
+/-- cache `c` was stored by the run `r` started on the file system `fs`: `c` is an unfilled (or `recompute`)
+cache of the pipeline with no replayed cache after it, the run reached its normal end, and `xs` is the
+*complete* flow that entered the cache, which ended normally -/
+def StoredBy (fs : FS) (r : RunSpec) (c : Nat) (xs : List Val) : Prop :=
+  ∃ pre rc post, r.els = pre ++ .cache c rc :: post ∧ cacheExists fs c rc = false ∧ NoFilled fs post ∧
+    (runPipe r.mode fs r.src r.els r.demand).end_ = .exhausted ∧ pipeFlow fs r.src pre = ⟨xs, none⟩
+
+/-- what one operation can do to a cache file: leave it, or (a complete run) store a complete flow -/
+theorem step_final_cases (w : World) (op : Op) (wf : ∀ r, op = .run r → r.WF) (c : Nat) (xs : List Val)
+    (h : ((step w op).fs c).final = some xs) :
+    (w.fs c).final = some xs ∨ ∃ r, op = .run r ∧ StoredBy w.fs r c xs := by
+  cases op with
+  | drop c' rc =>
+    left
+    simp only [step] at h
+    by_cases hc : c = c'
+    · subst hc; rw [(drop_spec w c rc).1] at h; simp at h
+    · rw [(drop_spec w c' rc).2.1 c hc] at h; exact h
+  | finalize =>
+    left
+    simpa [step, finalizeAll_final] using h
+  | run r =>
+    have wfr := wf r rfl
+    simp only [step] at h
+    by_cases hend : (runOp w r).2.end_ = .exhausted
+    · -- a complete run
+      have hend' : (runPipe r.mode w.fs r.src r.els r.demand).end_ = .exhausted := by
+        rw [← runOp_snd]; exact hend
+      rw [runOp_final] at h
+      by_cases hmem : c ∈ dumpIds (build r.mode w.fs r.src r.els).uppers
+      · right
+        rw [build_eq' r.mode w.fs r.src r.els wfr.2] at hmem
+        rcases dumpIds_buildEls w.fs c r.els 0 _ hmem with ⟨h0, _⟩ | ⟨pre, rc, post, e, hx, hpost⟩
+        · simp [dumpIds] at h0
+        · refine ⟨r, rfl, pre, rc, post, e, hx, hpost, hend', ?_⟩
+          have hd := wfr.1; have hm := wfr.2
+          rw [e] at hd hm hend' h
+          obtain ⟨s1, s2, _⟩ := first_run_stores r.mode w.fs r.src pre post c rc r.demand hm hd hx hpost hend'
+          rw [s1] at h
+          simp only [Option.some.injEq] at h
+          rw [← h, ← s2]
+      · left
+        have sp := drive_spec r.demand w.fs _ (chainOk_build r.mode w.fs r.src r.els wfr.2 wfr.1)
+        have := sp.2.2.1 c hmem
+        unfold runPipe at h
+        rw [this] at h
+        exact h
+    · left
+      rw [interrupted_run_keeps_cache_files w r wfr hend c] at h
+      exact h
+
+/-- the file of cache `c` holds `xs` because of operation `i` of the history: a complete run that stored `xs` -/
+def StoredIn (w0 : World) (ops : List Op) (c : Nat) (xs : List Val) : Prop :=
+  ∃ i r, ops[i]? = some (.run r) ∧ StoredBy (exec w0 (ops.take i)).fs r c xs
+
+/-- **`cache_complete`: the invariant over all histories.**  Run any sequence of operations — runs with any
+pipeline, any way of calling, any crash point (consumer stopping after `k` values, source or element raising),
+generators finalised at once, later (`finalize`) or never; `drop_cache`s — from any world.  Whenever the file
+of a cache exists afterwards, it was there initially with the same content, or its content is the complete
+flow that entered the cache in a run of the history that reached its normal end. -/
+theorem cache_complete : ∀ (ops : List Op) (w0 : World), (∀ r, .run r ∈ ops → r.WF) → ∀ c xs,
+    ((exec w0 ops).fs c).final = some xs → (w0.fs c).final = some xs ∨ StoredIn w0 ops c xs
+  | [], _, _, _, _, h => Or.inl h
+  | op :: ops, w0, wf, c, xs, h => by
+    simp only [exec] at h
+    rcases cache_complete ops (step w0 op) (fun r hr => wf r (by simp [hr])) c xs h with h1 | ⟨i, r, hi, hs⟩
+    · rcases step_final_cases w0 op (fun r hr => wf r (by simp [hr])) c xs h1 with h2 | ⟨r, hr, hs⟩
+      · exact Or.inl h2
+      · exact Or.inr ⟨0, r, by simp [hr], by simpa [exec] using hs⟩
+    · exact Or.inr ⟨i + 1, r, by simpa using hi, by simpa [exec] using hs⟩
+
+/-- **no later run presents a stored prefix as the complete flow.**  Start from no cache files and run any
+history (first runs interrupted at any crash point, repeated runs, recompute, drop, late finalisation).  If a
+later run replays cache `c` — its file holds `xs` — then `xs` is the complete, normally ended flow that entered
+the cache in an earlier run that ran to its end, and the consumer receives exactly `xs` (passed through the
+elements after the cache), never a prefix stored by an interrupted run. -/
+theorem later_run_serves_complete_flow (ops : List Op) (wf : ∀ r, .run r ∈ ops → r.WF)
+    (mode : Mode) (s : SrcSpec) (pre post : List ElSpec) (c : Nat) (k : Nat) (xs : List Val)
+    (hm : ModeOk mode (pre ++ .cache c false :: post)) (hd : Distinct (pre ++ .cache c false :: post))
+    (hfile : ((exec World.init ops).fs c).final = some xs) :
+    StoredIn World.init ops c xs ∧
+    (runPipe mode (exec World.init ops).fs s (pre ++ .cache c false :: post) k).outs.map (·.1)
+      = (elsFlow (exec World.init ops).fs post ⟨xs, none⟩).vals.take k := by
+  refine ⟨?_, (replay_exact_no_pull mode _ s pre post c k xs hm hd hfile).1⟩
+  rcases cache_complete ops World.init wf c xs hfile with h | h
+  · simp [World.init, FS.empty] at h
+  · exact h
+
+/-- non-vacuity: a history with an interrupted first run (consumer stops after 1 of 3 values, generator kept
+alive), a complete run on other values, late finalisation, and a replay -/
+example :
+    let p := [ElSpec.map 1 none, .cache 0 false]
+    let ops := [Op.run ⟨.source, ⟨[1, 2, 3], none⟩, p, 1, true⟩, .run ⟨.source, ⟨[4, 5], none⟩, p, 9, false⟩, .finalize]
+    ((exec World.init ops).fs 0 = ⟨some [41, 51], none⟩) ∧
+    (runPipe .hoist (exec World.init ops).fs ⟨[7], none⟩ p 9).outs.map (·.1) = [41, 51] := by decide
+
+example : RunSpec.WF ⟨.source, ⟨[1, 2, 3], none⟩, [.map 1 none, .cache 0 false, .cache 1 true], 1, true⟩ :=
+  ⟨by simp [Distinct, cacheIds], Or.inl (by decide)⟩
+
+end Lena.C18
